@@ -10,7 +10,7 @@
    C06_settles gives the continuation that reaches quiescence: together, once changes stop the run settles, up to date.
    KNOWN FINDING KF1: a change of a target's own declared input made while its script runs is absorbed by a skip; witness
    below, replayed on the real binary (defect D12). *)
-From Zinoma.Proofs Require Import SysWatch WatchKF1 SysWatchLive2 Weights.
+From Zinoma.Proofs Require Import SysWatch WatchKF1 SysWatchLive2 SysWatchLive3 Weights.
 From Zinoma.Model Require Import Incremental.
 
 Theorem C06_invalidation_rearms_and_propagates :
@@ -86,6 +86,28 @@ Theorem C06_quiescent_up_to_date :
     forall s, reachable true w g roots s -> ph s = PRun -> quiescent true w s = true -> none_failed s ->
     forall d ad k, actors s !! d = Some ad -> own ad k -> reqs ad k <> ∅ -> availb ad k = true.
 Proof. exact quiescent_up_to_date. Qed.
+
+(* ... and with failures (C06 together with C07): in a reachable state inside the root loop in which nothing can happen any
+   more, every requested target is up to date EXCEPT the targets whose own last run failed (`failed_state`: flag cleared, not
+   running, not succeeded) and the targets that depend, directly or through any chain, on such a target (`blocked_by_failure`): those
+   wait for the repair, nothing else does. *)
+Theorem C06_quiescent_up_to_date_or_blocked :
+  forall (g : graph) (roots : list tid) (w : bool) (rank : tid -> nat),
+    (forall t k deps d, g !! t = Some (k, deps) -> d ∈ deps -> is_Some (g !! d)) ->
+    (forall t k deps d, g !! t = Some (k, deps) -> d ∈ deps -> (rank d < rank t)%nat) ->
+    forall s, reachable true w g roots s -> ph s = PRun -> quiescent true w s = true ->
+    forall d ad k, actors s !! d = Some ad -> own ad k -> reqs ad k <> ∅ -> availb ad k = true \/ blocked_by_failure s d.
+Proof. exact quiescent_up_to_date_or_blocked. Qed.
+
+(* such a state: `2: [1]` watched, the script of 1 fails: quiescent, 1 failed, 2 not started *)
+Example C06_quiescent_with_a_failure :
+  let g : graph := <[1%N := (ABuild, [])]> (<[2%N := (ABuild, [1%N])]> ∅) in
+  exists s,
+    run_labels true true (init_sys g [2%N])
+      [LDeliver 2%N true; LDeliver 1%N true; LDeliver 1%N true; LDeliver 2%N true; LDeliver 2%N true; LRoot;
+       LBuildDone 1%N RFailed; LRoot] = Some s /\
+    (quiescent true true s && is_running s && bool_decide (hist s = [ObStart 1%N; ObFail 1%N])) = true.
+Proof. apply witness_intro. vm_compute. reflexivity. Qed.
 
 Theorem C06_none_failedb_spec : forall s, none_failedb s = true -> none_failed s.
 Proof. exact none_failedb_spec. Qed.
